@@ -12,8 +12,10 @@ import os
 _DIR = os.path.join(os.path.dirname(os.path.abspath(__file__)), "checks")
 CHECKS = {}
 META = {}
+REPOTESTS = {}
 for _f in sorted(glob.glob(os.path.join(_DIR, "c[0-9][0-9].json"))):
   _d = json.load(open(_f))
   _id = os.path.basename(_f)[:-5].upper()
   CHECKS[_id] = _d["budgets"]
   META[_id] = _d.get("manifest", {})
+  REPOTESTS[_id] = _d.get("repotests", [])
